@@ -60,6 +60,8 @@ func (a ivset) intersectRange(lo, hi int64) ivset {
 	return out
 }
 
+func (a ivset) contains(p int64) bool { return len(a.intersectRange(p, p)) > 0 }
+
 func (a ivset) minusPoint(p int64) ivset {
 	return a.intersectRange(-1<<40, p-1).union(a.intersectRange(p+1, 1<<40))
 }
@@ -559,6 +561,14 @@ func runC03(c *Ctx) {
 				}
 			}
 		})
+		// strings.HasPrefix(Input[end:], "\xef\xbb\xbf")
+		allInstrs(ws, func(in ssa.Instruction) {
+			if call, ok := in.(*ssa.Call); ok && calleeName(call) == "strings.HasPrefix" && len(call.Call.Args) == 2 {
+				if s, ok := constString(call.Call.Args[1]); ok && s == "\xef\xbb\xbf" {
+					bomString = true
+				}
+			}
+		})
 		if bomString || len(bom) == 2 && bom[0] == 0xBB && bom[1] == 0xBF {
 			r3.OK("the BOM is EF BB BF", "")
 		} else {
@@ -603,22 +613,41 @@ func runC03(c *Ctx) {
 	if rs == nil {
 		r4.AnchorLost("lexer.(*Lexer).readString")
 	} else {
-		// the escape byte: Input[end+1]
+		// the escape byte: Input[end+1], read in readString or in a helper it hands the escape sequence to
 		var esc ssa.Value
-		allInstrs(rs, func(in ssa.Instruction) {
-			if esc != nil {
-				return
-			}
-			idx, v, okI := strIndex(in)
-			if !okI || !isByteVal(v) {
-				return
-			}
-			if bo, ok := idx.(*ssa.BinOp); ok && bo.Op == token.ADD {
-				if k, ok := constInt(bo.Y); ok && k == 1 && isFieldLoad(bo.X, lexT, "end") {
-					esc = v
+		cands := []*ssa.Function{rs}
+		seenC := map[*ssa.Function]bool{rs: true}
+		for i := 0; i < len(cands) && i < 8; i++ {
+			allInstrs(cands[i], func(in ssa.Instruction) {
+				if ci, ok := in.(ssa.CallInstruction); ok {
+					if h := ci.Common().StaticCallee(); h != nil && !seenC[h] && h.Pkg == rs.Pkg && len(h.Blocks) > 0 && h.Signature.Recv() != nil {
+						seenC[h] = true
+						cands = append(cands, h)
+					}
 				}
+			})
+		}
+		for _, cand := range cands {
+			if esc != nil {
+				break
 			}
-		})
+			allInstrs(cand, func(in ssa.Instruction) {
+				if esc != nil {
+					return
+				}
+				idx, v, okI := strIndex(in)
+				if !okI || !isByteVal(v) {
+					return
+				}
+				if bo, ok := idx.(*ssa.BinOp); ok && bo.Op == token.ADD {
+					if k, ok := constInt(bo.Y); ok && k == 1 && isFieldLoad(bo.X, lexT, "end") {
+						// followed by a comparison with 'u' somewhere in the function: the escape dispatch
+						esc = v
+						rs = cand
+					}
+				}
+			})
+		}
 		if esc == nil {
 			r4.AnchorLost("the escape character Input[end+1] in readString")
 		} else {
@@ -635,6 +664,24 @@ func runC03(c *Ctx) {
 							wrote[k] = wrote[k].union(set)
 						} else if sameScrutinee(call.Call.Args[1], esc) {
 							wrote[-1] = wrote[-1].union(set)
+						} else if tab, idx, isOK, _ := tableLookup(p, call.Call.Args[1]); tab != nil && !isOK && sameScrutinee(stripChange(idx), esc) {
+							// the character comes from a read-only table keyed by the escape byte
+							for _, e := range tab.entries {
+								kk, okK := constant.Int64Val(e.key)
+								vv, okV := constNum(e.val)
+								if !okK || !okV || e.val == nil {
+									wrote[-2] = wrote[-2].union(set)
+									continue
+								}
+								if !set.contains(kk) {
+									continue
+								}
+								if vv == kk {
+									wrote[-1] = wrote[-1].union(ivPoints(kk))
+								} else {
+									wrote[vv] = wrote[vv].union(ivPoints(kk))
+								}
+							}
 						}
 					}
 				}
